@@ -381,6 +381,7 @@ func (d *Disk) WriteAt(p []byte, off int64) (int, error) {
 			n = int(room)
 		}
 		err = &IOError{K: txfile.NoDiskSpace, What: "no space left on simulated device"}
+		d.AddressSpaceExceeded = true // environment limit of the harness, not an injected fault
 	}
 
 	if n > 0 {
@@ -440,6 +441,7 @@ func (d *Disk) Truncate(sz int64) error {
 	}
 	if sz > int64(d.capacity) {
 		d.appendOp(Op{Kind: OpTruncate, Off: sz, OK: false})
+		d.AddressSpaceExceeded = true
 		return &IOError{K: txfile.NoDiskSpace, What: "truncate: no space left on simulated device"}
 	}
 	if sz > d.size {
